@@ -310,15 +310,21 @@ def _t_tri(c):
 @template("s:pad", "shape")
 def _t_pad(c):
     s = c.shape(1, 3)
-    k = c.int(0, 3)
+    k = c.int(0, 6)
     if k == 0:
         w = c.int(0, 2)
     elif k == 1:
         w = (c.int(0, 2), c.int(0, 2))
     elif k == 2:
         w = tuple((c.int(0, 2), c.int(0, 2)) for _ in s)
-    else:
+    elif k == 3:
         w = ((c.int(0, 2), c.int(0, 2)),)
+    elif k == 4:
+        w = (c.int(0, 2),)  # one number in a sequence: the same width before and after on every axis
+    elif k == 5:
+        w = [[c.int(0, 2), c.int(0, 2)] for _ in s]  # lists instead of tuples
+    else:
+        w = onp.array([[c.int(0, 2), c.int(0, 2)] for _ in s])  # an integer array
     mode = "constant" if not c.chance(1, 6) else c.choice(["edge", "reflect", "wrap"])
     kw = {}
     if mode == "constant" and c.chance(1, 3):
@@ -330,7 +336,7 @@ def _t_pad(c):
         fn = lambda ns, x: ns.pad(x, w, mode=mode, **kw)
     else:
         fn = (lambda ns, x: ns.pad(x, w, **kw)) if mode == "constant" else (lambda ns, x: ns.pad(x, pad_width=w, mode=mode))
-    return Call("s:pad", fn, [s], desc=["pad", list(s), w, mode, kw, form],
+    return Call("s:pad", fn, [s], desc=["pad", list(s), w.tolist() if isinstance(w, onp.ndarray) else w, mode, kw, form],
                 feats={"fn": "pad", "wkind": k, "mode": mode, "constant_values": "constant_values" in kw, "form": form})
 
 
@@ -548,15 +554,23 @@ def _t_gradient(c):
     return Call("s:gradient", fn, [s], desc=["gradient", list(s), ax], feats={"fn": "gradient", "axis_kind": k})
 
 
-@template("s:sort", "shape")
+@template("s:sort", "shape", weight=2)
 def _t_sort(c):
-    s = c.shape(1, 2, max_side=4)
+    s = c.shape(1, 3, max_side=4)
+    nd = len(s)
     w = c.choice(["sort", "partition"])
+    ak = c.int(0, 4)  # axis: absent / int keyword / int positional / None keyword / None positional
+    ax = c.axis(nd) if ak in (1, 2) else (None if ak >= 3 else -1)
+    kw = {"axis": ax} if ak in (1, 3) else {}
+    pos = (ax,) if ak in (2, 4) else ()
+    if c.chance(1, 5):
+        kw["kind"] = c.choice(["stable", "quicksort", None]) if w == "sort" else "introselect"
+    feats = {"fn": w, "ndim": nd, "axis_form": ["absent", "int_kw", "int_pos", "none_kw", "none_pos"][ak]}
     if w == "sort":
-        return Call("s:sort", lambda ns, x: ns.sort(x), [s], desc=["sort", list(s)], feats={"fn": "sort", "ndim": len(s)}, cplx=False)
-    k = c.int(0, s[-1] - 1)
-    return Call("s:sort", lambda ns, x: ns.partition(x, k), [s], desc=["partition", list(s), k],
-                feats={"fn": "partition", "ndim": len(s)}, cplx=False)
+        return Call("s:sort", lambda ns, x: ns.sort(x, *pos, **kw), [s], desc=["sort", list(s), ak, ax, kw.get("kind", "-")], feats=feats, cplx=False)
+    n = int(onp.prod(s)) if ax is None else s[ax]
+    k = c.int(-n, n - 1)
+    return Call("s:sort", lambda ns, x: ns.partition(x, k, *pos, **kw), [s], desc=["partition", list(s), k, ak, ax], feats=feats, cplx=False)
 
 
 @template("s:astype", "shape")
